@@ -30,6 +30,9 @@ enum Op {
 fn ids(v: &[ReplicaId]) -> Vec<u64> {
     v.iter().map(|r| r.0).collect()
 }
+fn pl(v: &[(u64, u64)]) -> String {
+    clist(v.iter(), |(a, b)| format!("({},{})", a, b))
+}
 fn nl(v: &[u64]) -> String {
     clist(v.iter(), |x| x.to_string())
 }
@@ -71,15 +74,43 @@ fn gen_key(rng: &mut Rng) -> String {
     }
 }
 
-fn mk_delta(key: &str, tag: u64, src: u64) -> ReplicationDelta {
-    let ts = LamportClock { time: tag, replica_id: ReplicaId::new(src) };
-    ReplicationDelta::new(key.to_string(), ReplicatedValue::with_value(SDS::from_str("v"), ts), ReplicaId::new(src))
+/// A delta on `key` with payload tag `tag` that ORIGINATED on replica `origin`
+/// (`source_replica`), which is independent of the node that routes it.
+fn mk_delta(key: &str, tag: u64, origin: u64) -> ReplicationDelta {
+    let ts = LamportClock { time: tag, replica_id: ReplicaId::new(origin) };
+    ReplicationDelta::new(key.to_string(), ReplicatedValue::with_value(SDS::from_str("v"), ts), ReplicaId::new(origin))
 }
-fn tag_of(d: &ReplicationDelta) -> u64 {
-    d.value.timestamp.time
+type GDelta = (String, u64, u64); // key, tag, origin
+/// origin of a routed delta: the sender itself, another owner of the key, a member that
+/// does not own it, or a node outside the ring
+fn pick_origin(rng: &mut Rng, out: &mut Out, key: &str, me: u64, ring: &HashRing, members: &BTreeSet<u64>) -> u64 {
+    let owners: Vec<u64> = ids(&ring.get_replicas(key)).into_iter().filter(|x| *x != me).collect();
+    let others: Vec<u64> = members.iter().cloned().filter(|x| *x != me && !owners.contains(x)).collect();
+    let c = rng.gen_range(0..100);
+    if c < 35 {
+        out.count("delta origin:sender");
+        me
+    } else if c < 65 && !owners.is_empty() {
+        out.count("delta origin:another owner of the key");
+        *owners.choose(rng).unwrap()
+    } else if c < 82 && !others.is_empty() {
+        out.count("delta origin:member, not an owner");
+        *others.choose(rng).unwrap()
+    } else {
+        out.count("delta origin:not a member");
+        loop {
+            let x = rng.gen_range(0..40u64);
+            if !members.contains(&x) && x != me {
+                break x;
+            }
+        }
+    }
 }
-fn delta_term(d: &(String, u64)) -> String {
-    format!("(D {} {})", chex(d.0.as_bytes()), d.1)
+fn tag_of(d: &ReplicationDelta) -> (u64, u64) {
+    (d.value.timestamp.time, d.source_replica.0)
+}
+fn delta_term(d: &GDelta) -> String {
+    format!("(D {} {} {})", chex(d.0.as_bytes()), d.1, d.2)
 }
 
 struct Stage {
@@ -151,7 +182,7 @@ fn peer_table(r: &GossipRouter) -> Vec<(u64, u64)> {
     v
 }
 
-type CanonMsg = (Option<u64>, u64, u64, u64, Vec<u64>, u64);
+type CanonMsg = (Option<u64>, u64, u64, u64, Vec<(u64, u64)>, u64);
 fn canon_msg(t: Option<ReplicaId>, m: &GossipMessage) -> CanonMsg {
     match m {
         GossipMessage::DeltaBatch { source_replica, deltas, epoch } => {
@@ -388,29 +419,40 @@ fn main() {
         let mut rterms: Vec<String> = Vec::new();
         let mut rshow: Vec<Value> = Vec::new();
         for m in &rmakes {
-            let nd = rng.gen_range(0..=10);
-            let deltas: Vec<(String, u64)> = (0..nd).map(|j| (keys.choose(&mut rng).map(|k| k.0.clone()).unwrap_or_default(), 100 + j as u64)).collect();
-            let nb = rng.gen_range(0..=3);
-            let mut tag = 200u64;
-            let batches: Vec<Vec<(String, u64)>> = (0..nb)
-                .map(|_| {
-                    let k = rng.gen_range(0..=4);
-                    (0..k).map(|_| { tag += 1; (keys.choose(&mut rng).map(|k| k.0.clone()).unwrap_or_default(), tag) }).collect()
-                })
-                .collect();
             let (router, cfg) = build_router(&shared, m);
             let me = router.my_replica().0;
+            let nd = rng.gen_range(0..=10);
+            let mut deltas: Vec<GDelta> = Vec::new();
+            for j in 0..nd {
+                let k = keys.choose(&mut rng).map(|k| k.0.clone()).unwrap_or_default();
+                let o = pick_origin(&mut rng, &mut out, &k, me, &ring, &fin_members);
+                deltas.push((k, 100 + j as u64, o));
+            }
+            let nb = rng.gen_range(0..=3);
+            let mut tag = 200u64;
+            let mut batches: Vec<Vec<GDelta>> = Vec::new();
+            for _ in 0..nb {
+                let cnt = rng.gen_range(0..=4);
+                let mut b = Vec::new();
+                for _ in 0..cnt {
+                    tag += 1;
+                    let k = keys.choose(&mut rng).map(|k| k.0.clone()).unwrap_or_default();
+                    let o = pick_origin(&mut rng, &mut out, &k, me, &ring, &fin_members);
+                    b.push((k, tag, o));
+                }
+                batches.push(b);
+            }
             let peers = peer_table(&router);
             let selective = router.is_selective();
-            let table = router.route_deltas(deltas.iter().map(|(k, t)| mk_delta(k, *t, me)).collect());
-            let mut ctable: Vec<(u64, Vec<u64>)> = table.iter().map(|(t, ds)| (t.0, ds.iter().map(tag_of).collect())).collect();
+            let table = router.route_deltas(deltas.iter().map(|(k, t, o)| mk_delta(k, *t, *o)).collect());
+            let mut ctable: Vec<(u64, Vec<(u64, u64)>)> = table.iter().map(|(t, ds)| (t.0, ds.iter().map(tag_of).collect())).collect();
             ctable.sort();
             // outbound queue
             let (router2, _) = build_router(&shared, m);
             let mut gs = GossipState::with_router(cfg.clone(), router2);
             for b in &batches {
                 gs.advance_epoch();
-                gs.queue_deltas(b.iter().map(|(k, t)| mk_delta(k, *t, me)).collect());
+                gs.queue_deltas(b.iter().map(|(k, t, o)| mk_delta(k, *t, *o)).collect());
             }
             let mut queue: Vec<CanonMsg> = gs.outbound_queue.iter().map(|rm| canon_msg(rm.target, &rm.message)).collect();
             queue.sort_by_key(|q| (q.5, q.0.unwrap_or(0))); // stable; per call (epoch) by target
@@ -442,13 +484,15 @@ fn main() {
             let owners = |k: &str| -> Vec<u64> { ids(&ring.get_replicas(k)).into_iter().filter(|x| *x != me).collect() };
             if selective && intended {
                 out.count("router:selective, knows every member");
-                let mut want: BTreeMap<u64, Vec<u64>> = BTreeMap::new();
-                for (k, t) in &deltas {
+                // the property: every owner of the key other than the SENDER (whatever replica
+                // the delta originated on), order and multiplicity kept
+                let mut want: BTreeMap<u64, Vec<(u64, u64)>> = BTreeMap::new();
+                for (k, t, og) in &deltas {
                     for o in owners(k) {
-                        want.entry(o).or_default().push(*t);
+                        want.entry(o).or_default().push((*t, *og));
                     }
                 }
-                let want: Vec<(u64, Vec<u64>)> = want.into_iter().collect();
+                let want: Vec<(u64, Vec<(u64, u64)>)> = want.into_iter().collect();
                 out.impl_checks += 1;
                 if want != ctable {
                     out.violation(i, "selective routing table is not owners-minus-sender",
@@ -458,10 +502,10 @@ fn main() {
                 // queue: per call, every owner other than the sender gets one targeted message with exactly its deltas
                 let mut wantq: Vec<CanonMsg> = Vec::new();
                 for (bi, b) in batches.iter().enumerate() {
-                    let mut w: BTreeMap<u64, Vec<u64>> = BTreeMap::new();
-                    for (k, t) in b {
+                    let mut w: BTreeMap<u64, Vec<(u64, u64)>> = BTreeMap::new();
+                    for (k, t, og) in b {
                         for o in owners(k) {
-                            w.entry(o).or_default().push(*t);
+                            w.entry(o).or_default().push((*t, *og));
                         }
                     }
                     for (t, ds) in w {
@@ -478,7 +522,7 @@ fn main() {
                 // still: nothing goes to a non-owner, to the sender, or to an unknown peer
                 for (t, ds) in &ctable {
                     for tg in ds {
-                        let k = &deltas.iter().find(|d| d.1 == *tg).unwrap().0;
+                        let k = &deltas.iter().find(|d| d.1 == tg.0).unwrap().0;
                         out.impl_checks += 1;
                         if !owners(k).contains(t) || !peer_ids.contains(t) {
                             out.violation(i, "selective routing sent a delta to a non-owner / unknown peer", json!({"target": t, "key": k, "router": format!("{:?}", m)}));
@@ -487,7 +531,7 @@ fn main() {
                 }
             } else {
                 out.count("router:broadcast");
-                let want: Vec<(u64, Vec<u64>)> = peer_ids.iter().filter(|p| **p != me).map(|p| (*p, deltas.iter().map(|d| d.1).collect())).collect();
+                let want: Vec<(u64, Vec<(u64, u64)>)> = peer_ids.iter().filter(|p| **p != me).map(|p| (*p, deltas.iter().map(|d| (d.1, d.2)).collect())).collect();
                 out.impl_checks += 1;
                 if want != ctable {
                     out.violation(i, "broadcast routing table is not every known peer other than self", json!({"router": format!("{:?}", m), "table": ctable, "expected": want}));
@@ -506,9 +550,9 @@ fn main() {
                 clist(deltas.iter(), delta_term),
                 clist(peers.iter(), |(a, b)| format!("({},{})", a, b)),
                 cbool(selective),
-                clist(ctable.iter(), |(t, ds)| format!("({},{})", t, nl(ds))),
+                clist(ctable.iter(), |(t, ds)| format!("({},{})", t, pl(ds))),
                 clist(batches.iter(), |b| clist(b.iter(), delta_term)),
-                clist(queue.iter(), |q| format!("({},({},({},({},({},{})))))", copt(&q.0, |x| x.to_string()), q.1, q.2, q.3, nl(&q.4), q.5))
+                clist(queue.iter(), |q| format!("({},({},({},({},({},{})))))", copt(&q.0, |x| x.to_string()), q.1, q.2, q.3, pl(&q.4), q.5))
             ));
             rshow.push(json!({"router": format!("{:?}", m), "peers": peers, "selective": selective, "deltas": deltas, "table": ctable, "batches": batches, "queue": format!("{:?}", queue)}));
         }
